@@ -32,8 +32,6 @@ pub enum Payload {
     Json(Vec<u8>),
     /// an arbitrary string for the string-taking entries (e.g. corrupted hex)
     Text(String),
-    /// a complete message document for the entries of that message kind
-    Doc(&'static str, String),
 }
 
 pub struct Docs {
@@ -47,6 +45,7 @@ impl Docs {
         let mut cert = serde_json::to_value(CertificateMessage::dummy()).unwrap();
         cert["genesis_signature"] = json!("");
         base.insert("cert.multi_signature", (cert.clone(), p(&["multi_signature"])));
+        base.insert("cert.genesis_signature", (cert.clone(), p(&["genesis_signature"])));
         base.insert("cert.aggregate_verification_key", (cert, p(&["aggregate_verification_key"])));
         let rs = serde_json::to_value(RegisterSignatureMessageHttp::dummy()).unwrap();
         base.insert("regsig.signature", (rs, p(&["signature"])));
@@ -97,10 +96,6 @@ impl Docs {
         }
         serde_json::to_string(&d).unwrap()
     }
-
-    pub fn kinds(&self) -> Vec<&'static str> {
-        self.base.keys().cloned().collect()
-    }
 }
 
 fn dmq_envelope(sig_bytes: &[u8]) -> Vec<u8> {
@@ -119,7 +114,6 @@ pub fn wrap(docs: &Docs, e: &Entry, p: &Payload) -> Option<Vec<u8>> {
             Payload::Bin(b) => Some(hex::encode(b)),
             Payload::Json(t) => Some(hex::encode(t)),
             Payload::Text(s) => Some(s.clone()),
-            Payload::Doc(..) => None,
         }
     };
     match (e.form, p) {
@@ -131,7 +125,6 @@ pub fn wrap(docs: &Docs, e: &Entry, p: &Payload) -> Option<Vec<u8>> {
         (Form::JsonStr, p) => as_str(p).map(|s| serde_json::to_vec(&json!(s)).unwrap()),
         (Form::JsonDoc, Payload::Json(t)) => Some(t.clone()),
         (Form::JsonDoc, _) => None,
-        (Form::Msg(k), Payload::Doc(k2, text)) => (k == *k2).then(|| text.clone().into_bytes()),
         (Form::Msg(k), p) => as_str(p).map(|s| docs.with(k, &s).into_bytes()),
     }
 }
@@ -223,6 +216,11 @@ impl Ctx {
             for (k, v) in label.as_object().unwrap() {
                 ev[k] = v.clone();
             }
+            // the model's prediction is about the bytes codec: an entry that only parses JSON
+            // never reaches it
+            if matches!(p, Payload::Bin(_)) && !e.bin && ev.get("pred").is_some() {
+                ev["pred"] = json!("err");
+            }
             out.push(Task { entry: ei, input, honest: if is_honest { honest.unwrap() as i64 } else { -1 }, ev });
         }
     }
@@ -246,7 +244,10 @@ pub fn execute(tasks: &[Task], jobs: usize, seed: u64) -> (Vec<Reply>, u64) {
     })
 }
 
-pub fn write_trace(path: &str, tasks: Vec<Task>, replies: &[Reply], restarts: u64, extra: Value) {
+/// `chunk` > 0: at most that many events per file (`path`, `path.1`, `path.2`, ...; `seq` restarts)
+pub fn write_trace(path: &str, tasks: Vec<Task>, replies: &[Reply], restarts: u64, extra: Value, chunk: u64) {
+    let mut files = vec![path.to_string()];
+    let mut total = 0u64;
     let mut t = Trace::create(path);
     let mut by_outcome: BTreeMap<String, u64> = BTreeMap::new();
     let mut by_entry: BTreeMap<String, u64> = BTreeMap::new();
@@ -259,7 +260,7 @@ pub fn write_trace(path: &str, tasks: Vec<Task>, replies: &[Reply], restarts: u6
         *by_outcome.entry(r.outcome.clone()).or_default() += 1;
         *by_entry.entry(ev["entry"].as_str().unwrap().to_string()).or_default() += 1;
         if let Some(m) = ev.get("mut").and_then(|m| m.as_str()) {
-            *by_mut.entry(m.to_string()).or_default() += 1;
+            *by_mut.entry(m.split(':').next().unwrap().to_string()).or_default() += 1;
         }
         if ev["honest"] == json!(true) {
             honest += 1;
@@ -271,11 +272,18 @@ pub fn write_trace(path: &str, tasks: Vec<Task>, replies: &[Reply], restarts: u6
         if ratio > max_ratio {
             max_ratio = ratio;
         }
+        if chunk > 0 && t.len() >= chunk {
+            total += t.finish();
+            let p = format!("{path}.{}", files.len());
+            t = Trace::create(&p);
+            files.push(p);
+        }
         t.emit(ev);
     }
-    let n = t.finish();
+    total += t.finish();
+    let n = total;
     let mut s = json!({
-        "events": n, "outcomes": by_outcome, "entries": by_entry.len(), "per_entry_min": by_entry.values().min(),
+        "events": n, "files": files, "outcomes": by_outcome, "entries": by_entry.len(), "per_entry_min": by_entry.values().min(),
         "honest": honest, "honest_roundtrip": honest_rt, "worker_restarts": restarts,
         "max_peak_over_bound": (max_ratio * 1000.0).round() / 1000.0,
     });
@@ -308,14 +316,20 @@ pub fn list(seed: u64) {
     println!("size_of SigReg = {}, Vec<u8> = {}", c.sizes.0, c.sizes.1);
 }
 
-/// `--mode probe --entry <name> (--hex <bytes> | --text <string>) [--inproc]`
+/// `--mode probe --entry <name> (--hex <bytes> | --text <string> | --nest <depth> [--as-hex]) [--inproc]`
 pub fn probe(args: &Args, seed: u64) {
     let es = entries();
     let name = args.req("entry");
     let ei = es.iter().position(|e| e.name == name).unwrap_or_else(|| panic!("no entry {name}"));
-    let input = match args.get("hex") {
-        Some(h) => hex::decode(h).expect("hex"),
-        None => args.req("text").into_bytes(),
+    let input = if let Some(d) = args.get("nest") {
+        // a Merkle map proof nested d times (bincode bytes, or their hex with --as-hex)
+        let b = mutate::nested_map_proof(&Ctx::new(seed), d.parse().unwrap()).unwrap();
+        if args.flag("as-hex") { hex::encode(b).into_bytes() } else { b }
+    } else {
+        match args.get("hex") {
+            Some(h) => hex::decode(h).expect("hex"),
+            None => args.req("text").into_bytes(),
+        }
     };
     if args.flag("inproc") {
         // no guards at all: the process itself shows what happens
@@ -345,7 +359,7 @@ pub fn honest_mode(args: &Args, seed: u64) {
         }
     }
     let (replies, restarts) = execute(&tasks, args.num("jobs", 8) as usize, seed);
-    write_trace(&args.req("out"), tasks, &replies, restarts, json!({"honest_values": c.store.meta.len()}));
+    write_trace(&args.req("out"), tasks, &replies, restarts, json!({"honest_values": c.store.meta.len()}), args.num("chunk", 0));
 }
 
 pub fn cases_mode(args: &Args, seed: u64) {
@@ -393,22 +407,29 @@ pub fn cases_mode(args: &Args, seed: u64) {
             "pred": case["pred"], "pbad": case["bad"], "pcls": case["cls"], "name": base,
         });
         let only_raw = (ci as u64) % forms_every != 0 && !is_honest;
-        let _ = ty;
-        c.tasks_for(
-            &mut tasks,
-            case["id"].as_u64().unwrap(),
-            "gen",
-            m.ty,
-            &Payload::Bin(b),
-            "legacy",
-            is_honest.then_some(hi),
-            &label,
-            only_raw,
-        );
+        let id = case["id"].as_u64().unwrap();
+        c.tasks_for(&mut tasks, id, "gen", m.ty, &Payload::Bin(b.clone()), "legacy", is_honest.then_some(hi), &label, only_raw);
+        // the same legacy bytes nested in the current CBOR format: an aggregate signature envelope
+        // around a concatenation proof envelope whose byte strings go to the same versioned decoders
+        if (ty == "sigreg" || ty == "bpath") && !only_raw {
+            let cbor_of = |name: &str| {
+                let i = c.store.find(name).unwrap();
+                c.store.meta[i].encs.iter().find(|e| e.codec == "cbor").unwrap().bytes.clone()
+            };
+            let wrapped = if ty == "sigreg" {
+                legacy::wrap_in_cbor_aggregate(&[b], &cbor_of("base:bpath.p12"))
+            } else {
+                legacy::wrap_in_cbor_aggregate(&[cbor_of("base:sigreg.r2")], &b)
+            };
+            let mut l2 = label.clone();
+            l2["env"] = json!("cbor_envelope");
+            let k1 = c.store.find("base:agg.k1").unwrap();
+            c.tasks_for(&mut tasks, id, "gen", "AggregateSignature", &Payload::Bin(wrapped), "cbor+legacy", is_honest.then_some(k1), &l2, false);
+        }
     }
     assert_eq!(mism_off, 0, "model and harness disagree on field offsets");
     let (replies, restarts) = execute(&tasks, args.num("jobs", 8) as usize, seed);
-    write_trace(&args.req("out"), tasks, &replies, restarts, json!({"cases": cases.len()}));
+    write_trace(&args.req("out"), tasks, &replies, restarts, json!({"cases": cases.len()}), args.num("chunk", 0));
 }
 
 /// real value of an abstract length class (spec/wire/Wire.tla); `exact` is the honest value
@@ -429,5 +450,5 @@ pub fn mutate_mode(args: &Args, seed: u64) {
     let c = Ctx::new(seed);
     let tasks = mutate::generate(&c, args, seed);
     let (replies, restarts) = execute(&tasks, args.num("jobs", 8) as usize, seed);
-    write_trace(&args.req("out"), tasks, &replies, restarts, json!({}));
+    write_trace(&args.req("out"), tasks, &replies, restarts, json!({}), args.num("chunk", 0));
 }
